@@ -82,7 +82,7 @@ pub struct Expect<'v> {
     pub blocks: &'v [Value],
 }
 
-fn cells(v: &Value) -> Vec<i64> {
+pub fn cells(v: &Value) -> Vec<i64> {
     v.as_array().unwrap().iter().map(|c| c.as_i64().unwrap()).collect()
 }
 
@@ -183,34 +183,50 @@ pub fn core_of(v: &Rv, w: u64) -> Result<(&'static str, u64), String> {
     })
 }
 
-/// Materialises the spec's memory image (blocks then root cells) in `m`; padding and the
-/// unspecified pointer get `garbage`.  Returns the root address.
-pub fn build_image(m: &mut Mem, w: u64, root: &[i64], root_align: u64, blocks: &[Value], garbage: u8) -> Result<u64, String> {
+/// Allocates and fills the spec's heap blocks (kind `kind`); returns their addresses
+/// (index 0 unused).  Padding and unspecified pointers get `garbage`.
+pub fn build_blocks(m: &mut Mem, w: u64, blocks: &[Value], garbage: u8, kind: &'static str) -> Result<Vec<u64>, String> {
     let mut addrs = vec![0u64; blocks.len() + 1];
     for (i, b) in blocks.iter().enumerate() {
-        addrs[i + 1] = m.alloc(b["size"].as_u64().unwrap(), b["align"].as_u64().unwrap(), "host");
-    }
-    let fill = |m: &mut Mem, at: u64, cs: &[i64]| -> Result<(), String> {
-        let mut i = 0;
-        while i < cs.len() {
-            let c = cs[i];
-            if c >= 1000 || c == PANY {
-                let p: u64 = if c >= 1000 { addrs[(c - 1000) as usize] } else { 0x7 + garbage as u64 };
-                m.write(at + i as u64, &p.to_le_bytes()[..w as usize])?;
-                i += w as usize;
-                continue;
+        let k: &'static str = if kind == "as-spec" {
+            match b["kind"].as_str().unwrap() {
+                "string" => "string",
+                "list" => "list",
+                _ => "map",
             }
-            let b = if c == PAD { garbage } else { c as u8 };
-            m.write(at + i as u64, &[b])?;
-            i += 1;
-        }
-        Ok(())
-    };
-    for (i, b) in blocks.iter().enumerate() {
-        fill(m, addrs[i + 1], &cells(&b["cells"]))?;
+        } else {
+            kind
+        };
+        addrs[i + 1] = m.alloc(b["size"].as_u64().unwrap(), b["align"].as_u64().unwrap(), k);
     }
+    for (i, b) in blocks.iter().enumerate() {
+        fill_cells(m, w, addrs[i + 1], &cells(&b["cells"]), &addrs, garbage)?;
+    }
+    Ok(addrs)
+}
+
+pub fn fill_cells(m: &mut Mem, w: u64, at: u64, cs: &[i64], addrs: &[u64], garbage: u8) -> Result<(), String> {
+    let mut i = 0;
+    while i < cs.len() {
+        let c = cs[i];
+        if c >= 1000 || c == PANY {
+            let p: u64 = if c >= 1000 { addrs[(c - 1000) as usize] } else { 0x7 + garbage as u64 };
+            m.write(at + i as u64, &p.to_le_bytes()[..w as usize])?;
+            i += w as usize;
+            continue;
+        }
+        let b = if c == PAD { garbage } else { c as u8 };
+        m.write(at + i as u64, &[b])?;
+        i += 1;
+    }
+    Ok(())
+}
+
+/// Materialises the spec's memory image (blocks then root cells) in `m`.  Returns the root address.
+pub fn build_image(m: &mut Mem, w: u64, root: &[i64], root_align: u64, blocks: &[Value], garbage: u8) -> Result<u64, String> {
+    let addrs = build_blocks(m, w, blocks, garbage, "host")?;
     let root_addr = m.alloc_min_aligned((root.len() as u64).max(1), root_align, "host-root");
-    fill(m, root_addr, root)?;
+    fill_cells(m, w, root_addr, root, &addrs, garbage)?;
     Ok(root_addr)
 }
 
